@@ -87,8 +87,24 @@ def _imports():
     from xv import genattr
     from xv.canon import canon_attr_strict as canon
     from xv.corpus import new_ctx
-    from xv.worker import journal
     g.update(locals())
+
+
+_JF = []
+
+
+def journal(text):
+    """In-flight input for on_lost (one persistent handle: a write per parse instead of open/write/close)."""
+    import os
+    if not _JF:
+        p = os.environ.get("XV_JOURNAL")
+        _JF.append(open(p, "w") if p else None)
+    f = _JF[0]
+    if f is not None:
+        f.seek(0)
+        f.truncate()
+        f.write(text)
+        f.flush()
 
 
 # ------------------------------------------------------------------ one round trip
@@ -419,8 +435,8 @@ def boundary_tags(a):
 
 # ------------------------------------------------------------------ plan / work
 def plan(tier, seed):
-    shards = 32 if tier == "quick" else 64
-    per = 700 if tier == "quick" else 16000
+    shards = 16 if tier == "quick" else 64
+    per = 1500 if tier == "quick" else 16000
     return [{"seed": seed, "shard": i, "n": per} for i in range(shards)]
 
 
@@ -515,7 +531,7 @@ def on_lost(info):
 def finish(agg, tier):
     inc = []
     c = agg.counters
-    need = 15000 if tier == "quick" else 600000
+    need = 12000 if tier == "quick" else 500000
     if c.get("roundtrips", 0) < need:
         inc.append(f"only {c.get('roundtrips', 0)} round trips (< {need})")
     if c.get("outcome_ok", 0) < need // 3:
